@@ -1,14 +1,1622 @@
-//! C11 — stub, to be implemented.
+//! C11 — command channels deliver every message once, intact, within memory bounds.
+//!
+//! Engine: *chansim*. Two real `sozu_command_lib::channel::Channel` endpoints (each wrapped in the
+//! loop of its real owner) over two real AF_UNIX socket pairs, with a simulator **relay** in
+//! between that moves k bytes at a time:
+//!
+//! ```text
+//!   end 0 (Channel)  a0 ==== a1  [relay queue 0 ->]  b1 ==== b0  (Channel) end 1
+//!                               [<- relay queue 1 ]
+//! ```
+//!
+//! In fault runs end 0 is a *raw byte writer*: relay queue 0 is preloaded with a byte stream made
+//! of valid and malformed frames.
+//!
+//! The oracle is an independent model: (a) a bounded FIFO of bytes per writer (accept a frame iff
+//! pending + frame <= max), (b) a reference deframer over the bytes handed to the reader's socket
+//! (8-byte LE total length, skip-or-close on error), (c) byte conservation measured at the kernel
+//! (FIONREAD), never through the channel's own counters.
 #![allow(dead_code)]
+
+use std::collections::BTreeMap;
+use std::fmt::Debug;
+use std::os::fd::FromRawFd;
+use std::panic::{catch_unwind, AssertUnwindSafe};
+
+use mio::net::UnixStream as MioUnixStream;
+use mio::Token;
+use prost::Message as ProstMessage;
+use serde::{Deserialize, Serialize};
 use serde_json::Value;
+use sozu::command::sessions::{extract_messages, wants_to_tick, WorkerResult, WorkerSession};
+use sozu_command_lib::channel::Channel;
+use sozu_command_lib::proto::command::{
+    request::RequestType, QueryClusterByDomain, Request, Response, ResponseContent, RunState, WorkerRequest, WorkerResponse,
+};
+use sozu_command_lib::ready::Ready;
+use sozu_command_lib::scm_socket::ScmSocket;
+
 use crate::framework::*;
+use crate::netsim::on_fresh_thread;
+use crate::prng::{Prng, TraceHash};
+use crate::sys::{self, sc};
+use crate::world::{SchedCfg, World};
 
 pub struct C11;
 
+// ------------------------------------------------------------------------------------------ plan
+
+#[derive(Clone, Debug, Serialize, Deserialize, PartialEq)]
+#[serde(tag = "o")]
+pub enum Op {
+    /// `write_message` on side `s` of a message whose frame (prefix + payload) is `len` bytes
+    W { s: u8, len: usize },
+    /// `handle_events(bits)` (1 readable, 2 writable)
+    Ev { s: u8, bits: u16 },
+    /// `readable()`
+    Rd { s: u8 },
+    /// `writable()`
+    Wr { s: u8 },
+    /// `run()`
+    Run { s: u8 },
+    /// `read_message()` up to n times (stops at the first Err)
+    Rm { s: u8, n: u32 },
+    /// one turn of the owner's event loop, with the events an edge-triggered epoll would report
+    Own { s: u8 },
+    /// relay: read up to k bytes written by side d (0 = everything available)
+    Pull { d: u8, k: usize },
+    /// relay: hand up to k queued bytes of direction d to side 1-d (0 = everything)
+    Push { d: u8, k: usize },
+    /// fault runs: the raw writer closes its socket
+    Eof,
+}
+
+#[derive(Clone, Debug, Serialize, Deserialize, PartialEq)]
+#[serde(tag = "k")]
+pub enum Seg {
+    /// a well-formed frame of `len` bytes in total
+    Valid { len: usize },
+    /// 8-byte prefix declaring a total length v < 8, nothing else
+    LenLt8 { v: u64 },
+    /// prefix declaring v > max, followed by `pay` payload bytes
+    LenGtMax { v: u64, pay: usize },
+    /// correct prefix (`len`), payload that is not a protobuf message of the expected type
+    Undecodable { len: usize, how: u8 },
+    /// a well-formed frame with one bit flipped (bit index into the whole frame)
+    Flip { len: usize, bit: usize },
+    /// a well-formed frame whose last `cut` bytes are missing (the prefix still says `len`)
+    Trunc { len: usize, cut: usize },
+    /// n pseudo-random bytes
+    Garbage { n: usize, g: u64 },
+}
+
+#[derive(Clone, Debug, Serialize, Deserialize, PartialEq)]
+pub struct Plan {
+    pub seed: u64,
+    pub family: String,
+    /// endpoint kinds: "worker_session" | "worker_loop" | "sessions" | "simple" | "raw"
+    pub ends: [String; 2],
+    pub buf: [u64; 2],
+    pub max: u64,
+    pub sndbuf: i32,
+    pub short_pm: u32,
+    pub eagain_pm: u32,
+    /// the plan only uses owner-level reads (W, Wr, Own, Pull, Push, Eof): the edge-triggered
+    /// event model is exact and a "stall until the next event" verdict is allowed
+    pub strict: bool,
+    pub ops: Vec<Op>,
+    #[serde(default)]
+    pub segs: Vec<Seg>,
+}
+
+// -------------------------------------------------------------------------- message construction
+
+fn text(seq: u32, salt: u32, n: usize) -> String {
+    // position-dependent printable pattern: shifted, duplicated or truncated data never compares equal
+    let mut s = String::with_capacity(n);
+    let head = format!("{seq}.");
+    for (i, c) in head.bytes().enumerate() {
+        if i >= n { break; }
+        s.push(c as char);
+    }
+    let mut i = s.len();
+    let k = (seq.wrapping_mul(7).wrapping_add(salt.wrapping_mul(13))) as usize;
+    while i < n {
+        s.push((b'a' + ((i + k + i / 26) % 26) as u8) as char);
+        i += 1;
+    }
+    s
+}
+
+pub trait Wire: ProstMessage + Default + Debug + Clone + PartialEq + 'static {
+    /// a message with a first string of `a` bytes and, if `b` is given, a second string of b bytes
+    fn mk(seq: u32, a: usize, b: Option<usize>) -> Self;
+    fn minimal() -> Self { Self::default() }
+}
+impl Wire for WorkerRequest {
+    fn mk(seq: u32, a: usize, b: Option<usize>) -> Self {
+        WorkerRequest { id: text(seq, 1, a), content: Request { request_type: b.map(|b| RequestType::LoadState(text(seq, 2, b))) } }
+    }
+}
+impl Wire for WorkerResponse {
+    fn mk(seq: u32, a: usize, b: Option<usize>) -> Self {
+        WorkerResponse { id: text(seq, 1, a), status: (seq % 3) as i32, message: b.map(|b| text(seq, 2, b)).unwrap_or_default(), content: None }
+    }
+}
+impl Wire for Request {
+    fn mk(seq: u32, a: usize, b: Option<usize>) -> Self {
+        match b {
+            None if a == 0 => Request { request_type: None },
+            None => Request { request_type: Some(RequestType::LoadState(text(seq, 1, a))) },
+            Some(b) => Request { request_type: Some(RequestType::QueryClustersByDomain(QueryClusterByDomain { hostname: text(seq, 1, a), path: Some(text(seq, 2, b)) })) },
+        }
+    }
+}
+impl Wire for Response {
+    fn mk(seq: u32, a: usize, b: Option<usize>) -> Self {
+        Response { status: (seq % 3) as i32, message: text(seq, 1, a + b.unwrap_or(0)), content: b.map(|_| ResponseContent { content_type: None }) }
+    }
+}
+
+/// A message whose encoding is exactly `target` bytes when that is reachable, else the largest
+/// one below (or the smallest possible message).
+fn build<M: Wire>(seq: u32, target: usize) -> M {
+    let min = M::minimal();
+    let min_len = min.encoded_len();
+    if min_len >= target { return min; }
+    let mut best = min;
+    let mut best_len = min_len;
+    for a in [2usize, 3, 4, 0, 1] {
+        for with_b in [true, false] {
+            let mut x = target;
+            for _ in 0..8 {
+                let m = if with_b { M::mk(seq, a, Some(x)) } else { M::mk(seq, a + x, None) };
+                let l = m.encoded_len();
+                if l == target { return m; }
+                if l < target && l > best_len { best_len = l; best = m; }
+                if l > target {
+                    let d = l - target;
+                    if d > x { break; }
+                    x -= d;
+                } else {
+                    x += target - l;
+                }
+            }
+        }
+    }
+    best
+}
+
+fn frame_of(payload: &[u8]) -> Vec<u8> {
+    let mut v = Vec::with_capacity(payload.len() + 8);
+    v.extend_from_slice(&((payload.len() as u64) + 8).to_le_bytes());
+    v.extend_from_slice(payload);
+    v
+}
+
+// ------------------------------------------------------------------------------------- endpoints
+
+#[derive(Clone, Copy, Debug, Default, PartialEq)]
+pub struct Obs { fcap: usize, fdata: usize, bcap: usize, bdata: usize, interest: u16, readiness: u16 }
+
+#[derive(Clone, Copy, Debug, Default)]
+pub struct Ev { any: bool, r: bool, w: bool, hup: bool, err: bool }
+impl Ev {
+    fn ready(&self) -> Ready {
+        // command/src/ready.rs: From<&mio::event::Event>
+        let mut r = Ready::EMPTY;
+        if self.r { r.insert(Ready::READABLE); }
+        if self.w { r.insert(Ready::WRITABLE); }
+        if self.err { r.insert(Ready::ERROR); }
+        if self.hup { r.insert(Ready::HUP); }
+        r
+    }
+}
+
+#[derive(Debug, Default)]
+pub struct OwnerOut {
+    delivered: Vec<Vec<u8>>,
+    terminal: Option<String>,
+    errs: Vec<String>,
+    spin: bool,
+}
+
+fn tag<E: Debug>(e: &E) -> String {
+    let s = format!("{e:?}");
+    s.split(|c: char| !(c.is_alphanumeric() || c == '_')).next().unwrap_or("").to_string()
+}
+
+pub trait Endpoint {
+    fn kind(&self) -> &'static str;
+    fn fd(&self) -> i32;
+    fn obs(&self) -> Obs;
+    fn build_tx(&self, seq: u32, payload_len: usize) -> Vec<u8>;
+    fn build_rx(&self, seq: u32, payload_len: usize) -> Vec<u8>;
+    /// independent decode of a payload of the type this end receives: canonical re-encoding
+    fn rx_canon(&self, payload: &[u8]) -> Option<Vec<u8>>;
+    fn write(&mut self, payload: &[u8]) -> Result<(), String>;
+    fn events(&mut self, bits: u16);
+    fn readable(&mut self) -> Result<usize, String>;
+    fn writable(&mut self) -> Result<usize, String>;
+    fn run(&mut self) -> Result<(), String>;
+    fn read(&mut self) -> Result<Vec<u8>, String>;
+    fn owner(&mut self, ev: Ev) -> OwnerOut;
+    /// a plain API user's turn (used in plans that call the channel API directly)
+    fn api_turn(&mut self, ev: Ev) -> OwnerOut;
+}
+
+fn ch_obs<Tx, Rx>(ch: &Channel<Tx, Rx>) -> Obs {
+    Obs {
+        fcap: ch.front_buf.capacity(), fdata: ch.front_buf.available_data(),
+        bcap: ch.back_buf.capacity(), bdata: ch.back_buf.available_data(),
+        interest: ch.interest.0, readiness: ch.readiness.0,
+    }
+}
+
+const SPIN_LIMIT: u32 = 20_000;
+
+/// `Server::send_queue` (lib/src/server.rs:1543-1572) with an empty response QUEUE.
+fn wl_send_queue<Tx: Wire, Rx: Wire>(ch: &mut Channel<Tx, Rx>, out: &mut OwnerOut) {
+    if ch.readiness.is_writable() {
+        let mut guard = 0;
+        loop {
+            if ch.back_buf.available_data() > 0 {
+                if let Err(e) = ch.writable() { out.errs.push(tag(&e)); }
+            }
+            if !ch.readiness.is_writable() { break; }
+            if ch.back_buf.available_data() == 0 { break; }
+            guard += 1;
+            if guard > SPIN_LIMIT { out.spin = true; break; }
+        }
+    }
+}
+
+/// `Server::read_channel_messages_and_notify` (lib/src/server.rs:1291-1347); `notify` = deliver.
+fn wl_read_channel_messages<Tx: Wire, Rx: Wire>(ch: &mut Channel<Tx, Rx>, out: &mut OwnerOut) {
+    if !ch.readiness().is_readable() { return; }
+    if let Err(e) = ch.readable() { out.errs.push(tag(&e)); }
+    let mut guard = 0;
+    loop {
+        match ch.read_message() {
+            Ok(m) => out.delivered.push(m.encode_to_vec()),
+            Err(e) => {
+                out.errs.push(tag(&e));
+                if (ch.interest & ch.readiness).is_readable() {
+                    if let Err(e) = ch.readable() { out.errs.push(tag(&e)); }
+                    guard += 1;
+                    if guard > SPIN_LIMIT { out.spin = true; break; }
+                    continue;
+                }
+                break;
+            }
+        }
+    }
+}
+
+/// One turn of `Server::run` for Token(0) (lib/src/server.rs:1054-1098), response QUEUE empty.
+fn worker_loop_turn<Tx: Wire, Rx: Wire>(ch: &mut Channel<Tx, Rx>, ev: Ev, out: &mut OwnerOut) {
+    wl_send_queue(ch, out);
+    if !ev.any { return; }
+    if ev.err { out.errs.push("event_error".into()); return; }
+    if ev.hup { out.terminal = Some("command channel was closed".into()); return; }
+    ch.handle_events(ev.ready());
+    let mut guard = 0;
+    loop {
+        if ch.readiness() == Ready::EMPTY { break; }
+        wl_read_channel_messages(ch, out);
+        if out.spin { break; }
+        wl_send_queue(ch, out);
+        guard += 1;
+        if guard > SPIN_LIMIT { out.spin = true; break; }
+    }
+}
+
+/// `ClientSession::ready` (bin/src/command/sessions.rs:164-181) with the real `extract_messages`;
+/// all extracted messages count as delivered (the real method keeps only the last one).
+fn session_ready<Tx: Wire, Rx: Wire>(ch: &mut Channel<Tx, Rx>, ready: Ready, out: &mut OwnerOut) {
+    ch.handle_events(ready);
+    if ch.readiness.is_error() || ch.readiness.is_hup() { out.terminal = Some("CloseSession".into()); return; }
+    if let Err(e) = ch.writable() { let t = tag(&e); if t != "Connection" { out.errs.push(t); } }
+    for m in extract_messages(ch) { out.delivered.push(m.encode_to_vec()); }
+}
+
+/// One turn of `CommandHub::run` (bin/src/command/server.rs:508-600) for one session.
+fn sessions_turn<Tx: Wire, Rx: Wire>(ch: &mut Channel<Tx, Rx>, ev: Ev, out: &mut OwnerOut) {
+    if wants_to_tick(ch) {
+        session_ready(ch, Ready::EMPTY, out);
+        if out.terminal.is_some() { return; }
+    }
+    if ev.any { session_ready(ch, ev.ready(), out); }
+}
+
+/// A plain third-party user of the API ("you have to flush using channel.run() afterwards"):
+/// feed events, `run()`, read until an error.
+fn simple_turn<Tx: Wire, Rx: Wire>(ch: &mut Channel<Tx, Rx>, ev: Ev, out: &mut OwnerOut) {
+    if ev.any {
+        if ev.hup || ev.err { out.terminal = Some("peer closed".into()); return; }
+        ch.handle_events(ev.ready());
+    }
+    if let Err(e) = ch.run() { out.errs.push(tag(&e)); }
+    loop {
+        match ch.read_message() {
+            Ok(m) => out.delivered.push(m.encode_to_vec()),
+            Err(e) => { out.errs.push(tag(&e)); break; }
+        }
+    }
+}
+
+#[derive(Clone, Copy, PartialEq)]
+enum OwnerKind { WorkerLoop, Sessions, Simple }
+
+struct Gen<Tx: Wire, Rx: Wire> { ch: Channel<Tx, Rx>, owner: OwnerKind, name: &'static str }
+
+macro_rules! chan_ops {
+    ($ch:expr) => {
+        fn fd(&self) -> i32 { $ch(self).fd() }
+        fn obs(&self) -> Obs { ch_obs($ch(self)) }
+    };
+}
+
+impl<Tx: Wire, Rx: Wire> Gen<Tx, Rx> { fn c(&self) -> &Channel<Tx, Rx> { &self.ch } }
+impl<Tx: Wire, Rx: Wire> Endpoint for Gen<Tx, Rx> {
+    fn kind(&self) -> &'static str { self.name }
+    chan_ops!(Self::c);
+    fn build_tx(&self, seq: u32, n: usize) -> Vec<u8> { build::<Tx>(seq, n).encode_to_vec() }
+    fn build_rx(&self, seq: u32, n: usize) -> Vec<u8> { build::<Rx>(seq, n).encode_to_vec() }
+    fn rx_canon(&self, payload: &[u8]) -> Option<Vec<u8>> { Rx::decode(payload).ok().map(|m| m.encode_to_vec()) }
+    fn write(&mut self, payload: &[u8]) -> Result<(), String> {
+        let m = Tx::decode(payload).expect("harness: tx payload decodes");
+        self.ch.write_message(&m).map_err(|e| tag(&e))
+    }
+    fn events(&mut self, bits: u16) { self.ch.handle_events(Ready(bits)); }
+    fn readable(&mut self) -> Result<usize, String> { self.ch.readable().map_err(|e| tag(&e)) }
+    fn writable(&mut self) -> Result<usize, String> { self.ch.writable().map_err(|e| tag(&e)) }
+    fn run(&mut self) -> Result<(), String> { self.ch.run().map_err(|e| tag(&e)) }
+    fn read(&mut self) -> Result<Vec<u8>, String> { self.ch.read_message().map(|m| m.encode_to_vec()).map_err(|e| tag(&e)) }
+    fn owner(&mut self, ev: Ev) -> OwnerOut {
+        let mut out = OwnerOut::default();
+        match self.owner {
+            OwnerKind::WorkerLoop => worker_loop_turn(&mut self.ch, ev, &mut out),
+            OwnerKind::Sessions => sessions_turn(&mut self.ch, ev, &mut out),
+            OwnerKind::Simple => simple_turn(&mut self.ch, ev, &mut out),
+        }
+        out
+    }
+    fn api_turn(&mut self, ev: Ev) -> OwnerOut { let mut out = OwnerOut::default(); simple_turn(&mut self.ch, ev, &mut out); out }
+}
+
+/// The real `WorkerSession` of the main process.
+struct WSess { s: WorkerSession, scm: (i32, i32) }
+impl WSess { fn c(&self) -> &Channel<WorkerRequest, WorkerResponse> { &self.s.channel } }
+impl WSess {
+    fn ready(&mut self, r: Ready, out: &mut OwnerOut) {
+        self.s.update_readiness(r);
+        match self.s.ready() {
+            WorkerResult::NothingToDo => {}
+            WorkerResult::NewResponses(v) => for m in v { out.delivered.push(m.encode_to_vec()); },
+            WorkerResult::CloseSession => out.terminal = Some("CloseSession".into()),
+        }
+    }
+}
+impl Endpoint for WSess {
+    fn kind(&self) -> &'static str { "worker_session" }
+    chan_ops!(Self::c);
+    fn build_tx(&self, seq: u32, n: usize) -> Vec<u8> { build::<WorkerRequest>(seq, n).encode_to_vec() }
+    fn build_rx(&self, seq: u32, n: usize) -> Vec<u8> { build::<WorkerResponse>(seq, n).encode_to_vec() }
+    fn rx_canon(&self, payload: &[u8]) -> Option<Vec<u8>> { WorkerResponse::decode(payload).ok().map(|m| m.encode_to_vec()) }
+    fn write(&mut self, payload: &[u8]) -> Result<(), String> {
+        let m = WorkerRequest::decode(payload).expect("harness: tx payload decodes");
+        self.s.channel.write_message(&m).map_err(|e| tag(&e))
+    }
+    fn events(&mut self, bits: u16) { self.s.channel.handle_events(Ready(bits)); }
+    fn readable(&mut self) -> Result<usize, String> { self.s.channel.readable().map_err(|e| tag(&e)) }
+    fn writable(&mut self) -> Result<usize, String> { self.s.channel.writable().map_err(|e| tag(&e)) }
+    fn run(&mut self) -> Result<(), String> { self.s.channel.run().map_err(|e| tag(&e)) }
+    fn read(&mut self) -> Result<Vec<u8>, String> { self.s.channel.read_message().map(|m| m.encode_to_vec()).map_err(|e| tag(&e)) }
+    fn owner(&mut self, ev: Ev) -> OwnerOut {
+        // CommandHub::run (bin/src/command/server.rs:518-524, 581-597)
+        let mut out = OwnerOut::default();
+        if self.s.run_state != RunState::Stopped && wants_to_tick(&self.s.channel) {
+            self.ready(Ready::EMPTY, &mut out);
+            if out.terminal.is_some() { return out; }
+        }
+        if ev.any { self.ready(ev.ready(), &mut out); }
+        out
+    }
+    fn api_turn(&mut self, ev: Ev) -> OwnerOut { let mut out = OwnerOut::default(); simple_turn(&mut self.s.channel, ev, &mut out); out }
+}
+impl Drop for WSess {
+    fn drop(&mut self) { sys::close(self.scm.0); sys::close(self.scm.1); }
+}
+
+fn mio_stream(fd: i32) -> MioUnixStream { unsafe { MioUnixStream::from_raw_fd(fd) } }
+
+fn make_end(kind: &str, fd: i32, buf: u64, max: u64) -> Option<Box<dyn Endpoint>> {
+    let session_interest = Ready::READABLE | Ready::ERROR | Ready::HUP;
+    Some(match kind {
+        "worker_session" => {
+            let scm = sys::socketpair(libc::AF_UNIX, libc::SOCK_STREAM | libc::SOCK_CLOEXEC).expect("socketpair");
+            let ch: Channel<WorkerRequest, WorkerResponse> = Channel::new(mio_stream(fd), buf, max);
+            let s = WorkerSession::new(ch, 0, 4242, Token(7), ScmSocket::new(scm.0).expect("scm"));
+            Box::new(WSess { s, scm })
+        }
+        "worker_loop" => Box::new(Gen::<WorkerResponse, WorkerRequest> { ch: Channel::new(mio_stream(fd), buf, max), owner: OwnerKind::WorkerLoop, name: "worker_loop" }),
+        "sessions" => {
+            // ClientSession::new (bin/src/command/sessions.rs:90)
+            let mut ch: Channel<Response, Request> = Channel::new(mio_stream(fd), buf, max);
+            ch.interest = session_interest;
+            Box::new(Gen { ch, owner: OwnerKind::Sessions, name: "sessions" })
+        }
+        "simple" => Box::new(Gen::<Request, Response> { ch: Channel::new(mio_stream(fd), buf, max), owner: OwnerKind::Simple, name: "simple" }),
+        _ => return None,
+    })
+}
+
+/// kind of the end that talks to `kind` (same message types, mirrored)
+fn peer_kind(kind: &str) -> &'static str {
+    match kind { "worker_session" => "worker_loop", "worker_loop" => "worker_session", "sessions" => "simple", _ => "sessions" }
+}
+
+// ------------------------------------------------------------------------------ reference model
+
+#[derive(Clone, Debug)]
+struct Item { canon: Vec<u8>, end: usize, len: usize, after_err: Option<&'static str> }
+
+/// Reference deframer over the bytes handed to a reader. Policy on error: skip (a reader that
+/// closes instead delivers a prefix of `items`). A declared length above max is fatal: nothing
+/// after it can be framed.
+#[derive(Default)]
+struct Deframer {
+    pos: usize,
+    items: Vec<Item>,
+    errors: Vec<(usize, &'static str)>,
+    fatal: Option<usize>,
+    last_err: Option<&'static str>,
+}
+impl Deframer {
+    fn advance(&mut self, s: &[u8], max: usize, canon: &dyn Fn(&[u8]) -> Option<Vec<u8>>) {
+        while self.fatal.is_none() {
+            if s.len() - self.pos < 8 { return; }
+            let len = u64::from_le_bytes(s[self.pos..self.pos + 8].try_into().unwrap());
+            if len < 8 {
+                self.errors.push((self.pos, "len_lt8"));
+                self.last_err = Some("len_lt8");
+                self.pos += 8;
+                continue;
+            }
+            if len > max as u64 {
+                self.errors.push((self.pos, "len_gt_max"));
+                self.last_err = Some("len_gt_max");
+                self.fatal = Some(self.pos);
+                return;
+            }
+            let len = len as usize;
+            if s.len() - self.pos < len { return; }
+            match canon(&s[self.pos + 8..self.pos + len]) {
+                Some(c) => self.items.push(Item { canon: c, end: self.pos + len, len, after_err: self.last_err }),
+                None => { self.errors.push((self.pos, "undecodable")); self.last_err = Some("undecodable"); }
+            }
+            self.pos += len;
+        }
+    }
+}
+
+// ------------------------------------------------------------------------------------ raw helpers
+
+fn inq(fd: i32) -> usize {
+    let mut n: i32 = 0;
+    let r = unsafe { sc!(libc::SYS_ioctl, fd, libc::FIONREAD, &mut n as *mut i32) };
+    if r < 0 { 0 } else { n as usize }
+}
+
+fn poll_level(fd: i32) -> Ev {
+    let mut p = libc::pollfd { fd, events: libc::POLLIN | libc::POLLOUT | libc::POLLRDHUP, revents: 0 };
+    let r = unsafe { sc!(libc::SYS_poll, &mut p as *mut libc::pollfd, 1, 0) };
+    if r <= 0 { return Ev { any: true, ..Default::default() }; }
+    let has = |f: i16| p.revents & f != 0;
+    // mio::sys::unix::selector::epoll::event
+    let read_closed = has(libc::POLLHUP) || (has(libc::POLLIN) && has(libc::POLLRDHUP));
+    let write_closed = has(libc::POLLHUP) || (has(libc::POLLOUT) && has(libc::POLLERR)) || p.revents == libc::POLLERR;
+    Ev { any: true, r: has(libc::POLLIN) || has(libc::POLLPRI), w: has(libc::POLLOUT), hup: read_closed || write_closed, err: has(libc::POLLERR) }
+}
+
+fn seg_bytes(seg: &Seg, seq: u32, build_rx: &dyn Fn(u32, usize) -> Vec<u8>) -> Vec<u8> {
+    match seg {
+        Seg::Valid { len } => frame_of(&build_rx(seq, len.saturating_sub(8))),
+        Seg::LenLt8 { v } => v.to_le_bytes().to_vec(),
+        Seg::LenGtMax { v, pay } => {
+            let mut b = v.to_le_bytes().to_vec();
+            b.extend_from_slice(&build_rx(seq, *pay));
+            b
+        }
+        Seg::Undecodable { len, how } => {
+            let n = len.saturating_sub(8).max(1);
+            let mut p = match how % 4 {
+                // field 1, length-delimited, declared longer than what is there
+                0 => { let mut p = vec![0x0a, 0x7f]; p.resize(n.max(2), b'x'); if p.len() > 0x7f { p[1] = 0xff; p.insert(2, 0x7f); p.truncate(n.max(3)); } p }
+                // wire type 7 does not exist
+                1 => { let mut p = vec![0x0f]; p.resize(n, 0x0f); p }
+                // string field holding invalid UTF-8
+                2 => { let k = n.saturating_sub(2).min(0x7f); let mut p = vec![0x0a, k as u8]; p.resize(2 + k, 0xff); p.resize(n.max(2 + k), 0xff); p }
+                // endless varint
+                _ => { let mut p = vec![0x08]; p.resize(n.max(12), 0xff); p }
+            };
+            if p.is_empty() { p.push(0xff); }
+            frame_of(&p)
+        }
+        Seg::Flip { len, bit } => {
+            let mut f = frame_of(&build_rx(seq, len.saturating_sub(8)));
+            let b = bit % (f.len() * 8);
+            f[b / 8] ^= 1 << (b % 8);
+            f
+        }
+        Seg::Trunc { len, cut } => {
+            let mut f = frame_of(&build_rx(seq, len.saturating_sub(8)));
+            let keep = f.len().saturating_sub(*cut).max(1);
+            f.truncate(keep);
+            f
+        }
+        Seg::Garbage { n, g } => {
+            let mut v = vec![0u8; *n];
+            Prng::derive(*g, "c11/garbage").fill(&mut v);
+            v
+        }
+    }
+}
+
+fn seg_name(s: &Seg) -> &'static str {
+    match s { Seg::Valid { .. } => "valid", Seg::LenLt8 { .. } => "len_lt8", Seg::LenGtMax { .. } => "len_gt_max", Seg::Undecodable { .. } => "undecodable", Seg::Flip { .. } => "flip", Seg::Trunc { .. } => "trunc", Seg::Garbage { .. } => "garbage" }
+}
+
+// ---------------------------------------------------------------------------------------- runner
+
+struct Side {
+    end: Option<Box<dyn Endpoint>>,
+    kind: String,
+    /// relay's descriptor of the pair whose other end is this side's channel
+    relay_fd: i32,
+    relay_open: bool,
+    // writer role
+    accepted: usize,
+    accepted_bytes: usize,
+    wire: Vec<u8>,
+    pulled: usize,
+    queue: Vec<u8>,
+    qoff: usize,
+    // reader role
+    stream_in: Vec<u8>,
+    model: Deframer,
+    delivered: usize,
+    delivered_end: usize,
+    last_err: String,
+    terminal: Option<String>,
+    // strict event model
+    edge: bool,
+    seq: u32,
+    prev: Obs,
+}
+
+struct Sim<'a> {
+    p: &'a Plan,
+    sides: [Side; 2],
+    fault: bool,
+    eof_done: bool,
+    h: TraceHash,
+    v: Vec<Violation>,
+    probes: BTreeMap<String, u64>,
+    log: Option<Vec<String>>,
+    cur: String,
+    herr: Option<String>,
+    /// segment byte ranges of the raw stream (fault runs)
+    seg_ranges: Vec<(usize, usize, &'static str)>,
+    raw_stream: Vec<u8>,
+}
+
+impl<'a> Sim<'a> {
+    fn probe(&mut self, k: &str) { *self.probes.entry(k.to_string()).or_insert(0) += 1; }
+    fn probe_n(&mut self, k: &str, n: u64) { if n > 0 { *self.probes.entry(k.to_string()).or_insert(0) += n; } }
+    fn viol(&mut self, class: &str, key: String, detail: String) {
+        if !self.v.iter().any(|x| x.class == class && x.key == key) {
+            let d = format!("{detail} [at op {}]", self.cur);
+            self.v.push(Violation::new(class, key, d));
+        }
+    }
+    fn say(&mut self, f: impl FnOnce() -> String) { if let Some(l) = self.log.as_mut() { l.push(f()); } }
+    fn mix_res<T: Debug>(&mut self, r: &Result<T, String>) {
+        match r {
+            Ok(x) => { self.h.mix(1); self.h.mix_bytes(format!("{x:?}").as_bytes()); }
+            Err(e) => { self.h.mix(2); self.h.mix_bytes(e.as_bytes()); }
+        }
+    }
+
+    /// bytes the writer on side s has handed to the kernel so far
+    fn flushed(&self, s: usize) -> usize { self.sides[s].pulled + if self.sides[s].relay_open { inq(self.sides[s].relay_fd) } else { 0 } }
+    /// bytes the reader on side s has taken out of the kernel so far
+    fn rcvd(&self, s: usize) -> usize {
+        let fd = match &self.sides[s].end { Some(e) => e.fd(), None => return self.sides[s].stream_in.len() };
+        self.sides[s].stream_in.len() - inq(fd)
+    }
+
+    fn relay_pull(&mut self, d: usize, k: usize) -> usize {
+        if self.fault && d == 0 { return 0; }
+        if !self.sides[d].relay_open { return 0; }
+        let fd = self.sides[d].relay_fd;
+        let mut total = 0;
+        let mut buf = vec![0u8; if k == 0 { 65536 } else { k.min(65536) }];
+        loop {
+            let want = if k == 0 { buf.len() } else { (k - total).min(buf.len()) };
+            if want == 0 { break; }
+            match sys::read(fd, &mut buf[..want]) {
+                Ok(0) => break,
+                Ok(n) => {
+                    let side = &mut self.sides[d];
+                    let exp_end = (side.pulled + n).min(side.wire.len());
+                    let ok = side.pulled + n <= side.wire.len() && side.wire[side.pulled..exp_end] == buf[..n];
+                    if !ok {
+                        let first_bad = (0..n).find(|i| side.wire.get(side.pulled + i) != Some(&buf[*i])).unwrap_or(0);
+                        let at = side.pulled + first_bad;
+                        let kind = side.kind.clone();
+                        self.viol("wire_corrupt", format!("{kind}"), format!("bytes written by side {d} differ from the accepted frames at stream offset {at}"));
+                    }
+                    let side = &mut self.sides[d];
+                    side.pulled += n;
+                    side.queue.extend_from_slice(&buf[..n]);
+                    total += n;
+                    self.sides[d].edge = true; // write space appeared for the writer
+                }
+                Err(_) => break,
+            }
+        }
+        total
+    }
+
+    fn relay_push(&mut self, d: usize, k: usize) -> usize {
+        let r = 1 - d;
+        if !self.sides[r].relay_open { return 0; }
+        let fd = self.sides[r].relay_fd;
+        let avail = self.sides[d].queue.len() - self.sides[d].qoff;
+        let want = if k == 0 { avail } else { k.min(avail) };
+        let mut total = 0;
+        while total < want {
+            let off = self.sides[d].qoff;
+            let chunk = (want - total).min(65536);
+            match sys::write(fd, &self.sides[d].queue[off..off + chunk]) {
+                Ok(0) => break,
+                Ok(n) => {
+                    let bytes: Vec<u8> = self.sides[d].queue[off..off + n].to_vec();
+                    self.sides[d].qoff += n;
+                    self.sides[r].stream_in.extend_from_slice(&bytes);
+                    total += n;
+                    self.sides[r].edge = true;
+                }
+                Err(_) => break,
+            }
+        }
+        if self.sides[d].qoff > 1 << 20 { let o = self.sides[d].qoff; self.sides[d].queue.drain(..o); self.sides[d].qoff = 0; }
+        if total > 0 { advance_model(&mut self.sides[r], self.p.max as usize); }
+        total
+    }
+
+    fn deliver(&mut self, s: usize, m: Vec<u8>) {
+        let rc = self.rcvd(s);
+        let side = &mut self.sides[s];
+        let idx = side.delivered;
+        match side.model.items.get(idx) {
+            Some(it) if it.canon == m => {
+                if it.end > rc {
+                    let (e, k) = (it.end, side.kind.clone());
+                    self.viol("phantom_message", k, format!("side {s} delivered message #{idx} whose frame ends at stream offset {e} but only {rc} bytes left the kernel"));
+                }
+                let side = &mut self.sides[s];
+                side.delivered_end = side.model.items[idx].end;
+                side.delivered += 1;
+                self.probe("delivered");
+            }
+            other => {
+                let after = other.and_then(|i| i.after_err).unwrap_or("none");
+                let what = if side.model.items[..idx.min(side.model.items.len())].iter().any(|i| i.canon == m) { "duplicate" } else if side.model.items.iter().skip(idx).any(|i| i.canon == m) { "skipped_or_reordered" } else { "altered" };
+                let k = side.kind.clone();
+                let fam = if self.fault { format!("after_{after}") } else { "plain".to_string() };
+                self.viol("wrong_delivery", format!("{what}|{fam}|{k}"), format!("side {s} delivered as message #{idx} a {}-byte message that is not the next one of the sent sequence ({what}); model has {} deliverable", m.len(), self.sides[s].model.items.len()));
+                // resynchronise the comparison so one fault is reported once
+                let side = &mut self.sides[s];
+                if let Some(j) = side.model.items.iter().skip(idx).position(|i| i.canon == m) { side.delivered = idx + j + 1; side.delivered_end = side.model.items[idx + j].end; }
+            }
+        }
+    }
+
+    fn note_err(&mut self, s: usize, e: &str) {
+        if e != "NothingRead" && e != "Connection" { self.sides[s].last_err = e.to_string(); }
+        self.probe(&format!("err_{e}"));
+    }
+
+    fn after_owner(&mut self, s: usize, out: OwnerOut) -> usize {
+        let n = out.delivered.len();
+        self.h.mix(0xD0 + s as u64);
+        self.h.mix(n as u64);
+        for e in &out.errs { self.h.mix_bytes(e.as_bytes()); }
+        for e in &out.errs { self.note_err(s, e); }
+        for m in out.delivered { self.h.mix_bytes(&m[..m.len().min(32)]); self.deliver(s, m); }
+        if out.spin {
+            let k = self.sides[s].kind.clone();
+            self.viol("owner_spin", k, format!("the owner loop of side {s} did not terminate within {SPIN_LIMIT} iterations"));
+        }
+        if let Some(t) = out.terminal {
+            self.h.mix(0x7E);
+            self.probe("owner_terminal");
+            self.say(|| format!("    side {s} owner terminal: {t}"));
+            self.sides[s].terminal = Some(t);
+            // the owner drops the channel: the socket closes
+            self.sides[s].end = None;
+            self.sides[1 - s].edge = true;
+        }
+        n
+    }
+
+    /// name of the loop that drives side s in this plan
+    fn owner_name(&self, s: usize) -> String { if self.p.strict { self.sides[s].kind.clone() } else { "simple".to_string() } }
+    fn turn(&mut self, s: usize, ev: Ev) -> OwnerOut {
+        let strict = self.p.strict;
+        let e = self.sides[s].end.as_mut().unwrap();
+        if strict { e.owner(ev) } else { e.api_turn(ev) }
+    }
+
+    fn strict_ev(&mut self, s: usize) -> Ev {
+        if !self.sides[s].edge { return Ev::default(); }
+        self.sides[s].edge = false;
+        match &self.sides[s].end { Some(e) => poll_level(e.fd()), None => Ev::default() }
+    }
+
+    fn generous_ev(&mut self, s: usize) -> Ev {
+        self.sides[s].edge = false;
+        match &self.sides[s].end { Some(e) => { let l = poll_level(e.fd()); Ev { any: true, r: true, w: true, hup: l.hup, err: l.err } } None => Ev::default() }
+    }
+
+    fn check(&mut self) {
+        let max = self.p.max as usize;
+        for s in 0..2 {
+            let Some(e) = self.sides[s].end.as_ref() else { continue };
+            // an injected EAGAIN / short write is only legal if a writable event follows
+            let fd = e.fd();
+            if crate::world::with_world(|w| w.rearm.remove(&fd).is_some()).unwrap_or(false) { self.sides[s].edge = true; }
+            let o = e.obs();
+            let prev = self.sides[s].prev;
+            self.h.mix(o.fcap as u64); self.h.mix(o.fdata as u64); self.h.mix(o.bcap as u64); self.h.mix(o.bdata as u64);
+            self.h.mix(((o.interest as u64) << 16) | o.readiness as u64);
+            if o.fcap > prev.fcap { self.probe("front_grow"); }
+            if o.fcap < prev.fcap { self.probe("front_shrink"); }
+            if o.bcap > prev.bcap { self.probe("back_grow"); }
+            if o.bcap < prev.bcap { self.probe("back_shrink"); }
+            if o.fcap == max && prev.fcap != max { self.probe("front_at_max"); }
+            if o.bcap == max && prev.bcap != max { self.probe("back_at_max"); }
+            self.sides[s].prev = o;
+            let kind = self.sides[s].kind.clone();
+            if o.fcap > max { self.viol("over_cap", format!("front|{kind}"), format!("side {s} front buffer capacity {} > max_buffer_size {max}", o.fcap)); }
+            if o.bcap > max { self.viol("over_cap", format!("back|{kind}"), format!("side {s} back buffer capacity {} > max_buffer_size {max}", o.bcap)); }
+            if o.fdata > o.fcap || o.bdata > o.bcap { self.viol("over_cap", format!("data|{kind}"), format!("side {s} buffered data exceeds capacity: {o:?}")); }
+            // byte conservation, measured at the kernel
+            let fl = self.flushed(s);
+            let want_b = self.sides[s].accepted_bytes as i64 - fl as i64;
+            if want_b != o.bdata as i64 {
+                self.viol("byte_accounting", format!("back|{kind}"), format!("side {s}: accepted {} bytes, kernel received {fl}, so {want_b} must be pending, but back_buf holds {}", self.sides[s].accepted_bytes, o.bdata));
+            }
+            let rc = self.rcvd(s);
+            let held = rc as i64 - self.sides[s].delivered_end as i64;
+            if !self.fault {
+                if held != o.fdata as i64 {
+                    self.viol("byte_accounting", format!("front|{kind}"), format!("side {s}: {rc} bytes left the kernel, delivered frames end at {}, so {held} must be buffered, but front_buf holds {}", self.sides[s].delivered_end, o.fdata));
+                }
+            } else if (o.fdata as i64) > held {
+                self.viol("byte_accounting", format!("front|{kind}"), format!("side {s}: front_buf holds {} bytes but only {held} undelivered bytes left the kernel", o.fdata));
+            }
+        }
+    }
+
+    fn op(&mut self, op: &Op) {
+        let max = self.p.max as usize;
+        match op {
+            Op::W { s, len } => {
+                let s = *s as usize;
+                let Some(e) = self.sides[s].end.as_ref() else { return };
+                let seq = self.sides[s].seq;
+                let payload = e.build_tx(seq, len.saturating_sub(8));
+                let l = payload.len() + 8;
+                let pending = self.sides[s].accepted_bytes.saturating_sub(self.flushed(s));
+                let expect_ok = pending + l <= max;
+                let r = self.sides[s].end.as_mut().unwrap().write(&payload);
+                self.h.mix(0x10 + s as u64); self.h.mix(l as u64);
+                self.mix_res(&r);
+                self.say(|| format!("  W side {s} frame {l} (pending {pending}) -> {r:?}"));
+                self.sides[s].seq += 1;
+                if l == max { self.probe("write_len_eq_max"); }
+                if l == max + 1 { self.probe("write_len_eq_max_plus_1"); }
+                if l + 8 == max { self.probe("write_len_eq_max_minus_8"); }
+                let kind = self.sides[s].kind.clone();
+                match (&r, expect_ok) {
+                    (Ok(()), true) => {
+                        let side = &mut self.sides[s];
+                        side.accepted += 1; side.accepted_bytes += l;
+                        side.wire.extend_from_slice(&frame_of(&payload));
+                        self.probe("write_ok");
+                        if pending > 0 { self.probe("write_ok_while_pending"); }
+                    }
+                    (Err(e), false) => {
+                        let e = e.clone();
+                        self.probe(if l > max { "write_refused_frame_gt_max" } else { "write_refused_backlog" });
+                        self.probe(&format!("write_err_{e}"));
+                    }
+                    (Ok(()), false) => {
+                        self.viol("write_accepted_over_cap", format!("{}|{kind}", if l > max { "frame_gt_max" } else { "backlog" }), format!("side {s}: write_message of a {l}-byte frame with {pending} bytes pending returned Ok although {pending}+{l} > max {max}"));
+                        let side = &mut self.sides[s];
+                        side.accepted += 1; side.accepted_bytes += l;
+                        side.wire.extend_from_slice(&frame_of(&payload));
+                    }
+                    (Err(e), true) => {
+                        let e = e.clone();
+                        self.viol("write_refused", format!("{e}|{}|{kind}", if pending == 0 { "empty" } else { "backlog" }), format!("side {s}: write_message of a {l}-byte frame with {pending} bytes pending returned Err({e}) although {pending}+{l} <= max {max}"));
+                    }
+                }
+            }
+            Op::Ev { s, bits } => {
+                let s = *s as usize;
+                if let Some(e) = self.sides[s].end.as_mut() { e.events(*bits & 3); }
+                self.h.mix(0x20 + s as u64); self.h.mix(*bits as u64);
+            }
+            Op::Rd { s } => {
+                let s = *s as usize;
+                if self.sides[s].end.is_none() { return; }
+                let before = self.rcvd(s);
+                let r = self.sides[s].end.as_mut().unwrap().readable();
+                let after = self.rcvd(s);
+                self.h.mix(0x30 + s as u64); self.mix_res(&r);
+                self.say(|| format!("  Rd side {s} -> {r:?} (kernel gave {})", after - before));
+                match &r {
+                    Ok(n) => if *n != after - before {
+                        let kind = self.sides[s].kind.clone();
+                        self.viol("byte_accounting", format!("readable_count|{kind}"), format!("side {s}: readable() returned Ok({n}) but {} bytes left the kernel", after - before));
+                    },
+                    Err(e) => { let e = e.clone(); self.note_err(s, &e); }
+                }
+            }
+            Op::Wr { s } => {
+                let s = *s as usize;
+                if self.sides[s].end.is_none() { return; }
+                self.sides[s].end.as_mut().unwrap().events(2);
+                let before = self.flushed(s);
+                let r = self.sides[s].end.as_mut().unwrap().writable();
+                let after = self.flushed(s);
+                self.h.mix(0x40 + s as u64); self.mix_res(&r);
+                self.say(|| format!("  Wr side {s} -> {r:?} (kernel took {})", after - before));
+                match &r {
+                    Ok(n) => if *n != after - before {
+                        let kind = self.sides[s].kind.clone();
+                        self.viol("byte_accounting", format!("writable_count|{kind}"), format!("side {s}: writable() returned Ok({n}) but the kernel received {} bytes", after - before));
+                    },
+                    Err(e) => { let e = e.clone(); self.note_err(s, &e); }
+                }
+            }
+            Op::Run { s } => {
+                let s = *s as usize;
+                if self.sides[s].end.is_none() { return; }
+                self.sides[s].end.as_mut().unwrap().events(3);
+                let r = self.sides[s].end.as_mut().unwrap().run();
+                self.h.mix(0x50 + s as u64); self.mix_res(&r);
+                self.say(|| format!("  Run side {s} -> {r:?}"));
+                if let Err(e) = &r { let e = e.clone(); self.note_err(s, &e); }
+            }
+            Op::Rm { s, n } => {
+                let s = *s as usize;
+                for _ in 0..*n {
+                    if self.sides[s].end.is_none() { return; }
+                    let r = self.sides[s].end.as_mut().unwrap().read();
+                    self.h.mix(0x60 + s as u64);
+                    self.say(|| format!("  Rm side {s} -> {}", match &r { Ok(m) => format!("Ok({} bytes)", m.len()), Err(e) => format!("Err({e})") }));
+                    match r {
+                        Ok(m) => { self.h.mix_bytes(&m[..m.len().min(32)]); self.deliver(s, m); }
+                        Err(e) => { self.h.mix_bytes(e.as_bytes()); self.note_err(s, &e); break; }
+                    }
+                }
+            }
+            Op::Own { s } => {
+                let s = *s as usize;
+                if self.sides[s].end.is_none() { return; }
+                let ev = if self.p.strict { self.strict_ev(s) } else { self.generous_ev(s) };
+                let out = self.turn(s, ev);
+                self.say(|| format!("  Own side {s} ev={ev:?} -> delivered {} errs {:?} terminal {:?}", out.delivered.len(), out.errs, out.terminal));
+                self.after_owner(s, out);
+            }
+            Op::Pull { d, k } => {
+                let n = self.relay_pull(*d as usize, *k);
+                self.h.mix(0x70 + *d as u64); self.h.mix(n as u64);
+                self.say(|| format!("  Pull dir {d} k={k} -> {n}"));
+                self.probe_n("relay_bytes", n as u64);
+            }
+            Op::Push { d, k } => {
+                let d = *d as usize;
+                let before = self.sides[1 - d].stream_in.len();
+                let n = self.relay_push(d, *k);
+                self.h.mix(0x80 + d as u64); self.h.mix(n as u64);
+                self.say(|| format!("  Push dir {d} k={k} -> {n} (stream offset {})", before + n));
+                if n > 0 {
+                    // where does this cut fall relative to frame boundaries of the reference stream?
+                    let cut = before + n;
+                    let m = &self.sides[1 - d].model;
+                    let in_prefix = cut > m.pos && cut < m.pos + 8;
+                    let in_payload = cut >= m.pos + 8;
+                    if in_prefix { self.probe("split_inside_prefix"); } else if in_payload { self.probe("split_inside_payload"); } else { self.probe("split_at_boundary"); }
+                }
+            }
+            Op::Eof => {
+                if self.fault && self.sides[1].relay_open {
+                    self.relay_pull(1, 0);
+                    sys::close(self.sides[1].relay_fd);
+                    self.sides[1].relay_open = false;
+                    self.sides[1].edge = true;
+                    self.eof_done = true;
+                    self.h.mix(0x90);
+                    let off = self.sides[1].stream_in.len();
+                    self.say(|| format!("  Eof at stream offset {off}"));
+                    self.probe("eof");
+                }
+            }
+        }
+    }
+
+    fn snapshot(&self) -> (usize, usize, usize, usize, usize, usize) {
+        (self.flushed(0), self.flushed(1), self.rcvd(0), self.rcvd(1), self.sides[0].delivered, self.sides[1].delivered)
+    }
+
+    /// Let the system run to quiescence: relay moves everything, owners take turns.
+    fn drain(&mut self, strict: bool, max_rounds: u32) {
+        let mut idle = 0;
+        for round in 0..max_rounds {
+            let before = self.snapshot();
+            let mut moved = 0;
+            for d in 0..2 {
+                moved += self.relay_pull(d, 0);
+                if !self.eof_done || d != 0 { moved += self.relay_push(d, 0); }
+            }
+            let mut terminals = 0;
+            for s in 0..2 {
+                if self.sides[s].end.is_none() { continue; }
+                let ev = if strict { self.strict_ev(s) } else { self.generous_ev(s) };
+                self.cur = format!("drain[{}{round}] owner {s}", if strict { "strict " } else { "generous " });
+                let out = self.turn(s, ev);
+                self.say(|| format!("  drain {} round {round}: side {s} ev={ev:?} -> delivered {} errs {:?} terminal {:?}", if strict { "strict" } else { "generous" }, out.delivered.len(), out.errs, out.terminal));
+                if out.terminal.is_some() { terminals += 1; }
+                self.after_owner(s, out);
+                self.check();
+            }
+            self.h.mix(0xA0); self.h.mix(moved as u64);
+            let edges = (0..2).any(|s| self.sides[s].end.is_some() && self.sides[s].edge);
+            let progressed = moved > 0 || terminals > 0 || edges || self.snapshot() != before;
+            if progressed { idle = 0; } else { idle += 1; }
+            if idle >= if strict { 2 } else { 4 } { break; }
+        }
+    }
+
+    /// declared length of the frame at the head of reader r's front buffer
+    fn head_len(&self, r: usize) -> Option<u64> {
+        let e = self.sides[r].end.as_deref()?;
+        let head = self.rcvd(r) - e.obs().fdata;
+        self.sides[r].stream_in.get(head..head + 8).map(|b| u64::from_le_bytes(b.try_into().unwrap()))
+    }
+
+    /// How far reader r is behind what was sent to it: None when everything deliverable was
+    /// delivered. The reference deframer runs over the *whole* destined stream (all accepted
+    /// frames of the peer, or the raw stream up to EOF), not only over what the relay could push.
+    fn lag(&self, r: usize) -> Option<Lag> {
+        let w = 1 - r;
+        let e = self.sides[r].end.as_deref()?;
+        let destined: &[u8] = if self.fault {
+            if r != 1 { return None; }
+            if self.eof_done { &self.sides[r].stream_in } else { &self.raw_stream }
+        } else {
+            &self.sides[w].wire
+        };
+        let mut full = Deframer::default();
+        full.advance(destined, self.p.max as usize, &|b| e.rx_canon(b));
+        let delivered = self.sides[r].delivered;
+        if full.items.len() <= delivered { return None; }
+        let owed = full.items.len() - delivered;
+        let after = full.items[delivered].after_err.unwrap_or("none");
+        let in_kernel = inq(e.fd());
+        let rc = self.rcvd(r);
+        let writer_alive = self.sides[w].end.is_some();
+        let (acc, fl) = if self.fault { (0, 0) } else { (self.sides[w].accepted_bytes, self.flushed(w)) };
+        // the writer is to blame only if nothing it flushed is still waiting for the reader
+        let writer_stuck = !self.fault && writer_alive && acc > fl && fl == rc;
+        // declared length of the frame at the head of the reader's front buffer
+        let head = rc - e.obs().fdata;
+        let head_len = destined.get(head..head + 8).map(|b| u64::from_le_bytes(b.try_into().unwrap()));
+        let head_ok = full.items.iter().any(|i| i.end - i.len == head);
+        Some(Lag { owed, first: delivered, after, in_kernel, writer_stuck, next_len: full.items[delivered].len, head_len, head_ok })
+    }
+}
+
+#[derive(Clone, Debug)]
+struct Lag { owed: usize, first: usize, after: &'static str, in_kernel: usize, writer_stuck: bool, next_len: usize, head_len: Option<u64>, head_ok: bool }
+
+fn advance_model(side: &mut Side, max: usize) {
+    let Side { end, stream_in, model, .. } = side;
+    if let Some(e) = end.as_deref() { model.advance(stream_in, max, &|b| e.rx_canon(b)); }
+}
+
+fn sockpair(sndbuf: i32) -> (i32, i32) {
+    let (a, b) = sys::socketpair(libc::AF_UNIX, libc::SOCK_STREAM | libc::SOCK_NONBLOCK | libc::SOCK_CLOEXEC).expect("socketpair");
+    if sndbuf > 0 {
+        let _ = sys::setsockopt_int(a, libc::SOL_SOCKET, libc::SO_SNDBUF, sndbuf);
+        let _ = sys::setsockopt_int(b, libc::SOL_SOCKET, libc::SO_SNDBUF, sndbuf);
+    }
+    (a, b)
+}
+
+pub fn execute(p: &Plan, verbose: bool) -> (RunReport, Vec<String>) {
+    let mut rep = RunReport { seed: p.seed, family: p.family.clone(), summary: summarize(p), ..Default::default() };
+    let fault = p.ends[0] == "raw";
+    let cfg = SchedCfg { short_write_pm: p.short_pm, eagain_pm: p.eagain_pm, ..SchedCfg::default() };
+    let mut world = World::new(p.seed ^ 0xC11, cfg);
+    World::install(&mut world);
+
+    let (a0, a1) = if fault { (-1, -1) } else { sockpair(p.sndbuf) };
+    let (b0, b1) = sockpair(p.sndbuf);
+    let mk_side = |kind: &str, fd: i32, relay_fd: i32, buf: u64| -> Side {
+        let end = if fd >= 0 { make_end(kind, fd, buf, p.max) } else { None };
+        let prev = end.as_ref().map(|e| e.obs()).unwrap_or_default();
+        Side {
+            end, kind: kind.to_string(), relay_fd, relay_open: relay_fd >= 0,
+            accepted: 0, accepted_bytes: 0, wire: Vec::new(), pulled: 0, queue: Vec::new(), qoff: 0,
+            stream_in: Vec::new(), model: Deframer::default(), delivered: 0, delivered_end: 0, last_err: "none".into(), terminal: None,
+            edge: true, seq: 0, prev,
+        }
+    };
+    let sides = [mk_side(&p.ends[0], a0, a1, p.buf[0]), mk_side(&p.ends[1], b0, b1, p.buf[1])];
+    let mut sim = Sim { p, sides, fault, eof_done: false, h: TraceHash::new(), v: Vec::new(), probes: BTreeMap::new(), log: if verbose { Some(Vec::new()) } else { None }, cur: String::new(), herr: None, seg_ranges: Vec::new(), raw_stream: Vec::new() };
+    for s in 0..2 {
+        if let Some(e) = sim.sides[s].end.as_ref() {
+            let fd = e.fd();
+            world.sozu_fds.insert(fd, 'c');
+        } else if !(fault && s == 0) {
+            sim.herr = Some(format!("unknown endpoint kind {:?}", p.ends[s]));
+        }
+    }
+    if fault && sim.herr.is_none() {
+        // preload relay queue 0 with the raw stream
+        let mut stream = Vec::new();
+        let mut ranges = Vec::new();
+        {
+            let e = sim.sides[1].end.as_deref().unwrap();
+            for (i, seg) in p.segs.iter().enumerate() {
+                let bytes = seg_bytes(seg, i as u32, &|seq, n| e.build_rx(seq, n));
+                ranges.push((stream.len(), stream.len() + bytes.len(), seg_name(seg)));
+                stream.extend_from_slice(&bytes);
+            }
+        }
+        for (_, _, n) in &ranges { sim.probe(&format!("seg_{n}")); }
+        sim.seg_ranges = ranges;
+        sim.h.mix_bytes(&stream);
+        sim.raw_stream = stream.clone();
+        sim.sides[0].queue = stream;
+    }
+
+    for x in [p.buf[0], p.buf[1], p.max, p.sndbuf as u64, p.strict as u64] { sim.h.mix(x); }
+    for k in &p.ends { sim.h.mix_bytes(k.as_bytes()); }
+    if sim.herr.is_none() {
+        // a panic is a verdict, reported through the RunReport: keep it off stderr (the batch driver
+        // only drains a worker's stderr after it exits, so a chatty worker would block on the pipe)
+        let hook = std::panic::take_hook();
+        std::panic::set_hook(Box::new(|_| {}));
+        let r = catch_unwind(AssertUnwindSafe(|| {
+            for (i, op) in p.ops.iter().enumerate() {
+                sim.cur = format!("#{i} {op:?}");
+                sim.op(op);
+                sim.check();
+            }
+            sim.cur = "drain".into();
+            verdict(&mut sim);
+        }));
+        std::panic::set_hook(hook);
+        if let Err(pn) = r {
+            let msg = if let Some(s) = pn.downcast_ref::<&str>() { s.to_string() } else if let Some(s) = pn.downcast_ref::<String>() { s.clone() } else { "panic".into() };
+            let opk = sim.cur.split_whitespace().nth(1).unwrap_or("drain").split(|c: char| !c.is_alphanumeric()).next().unwrap_or("").to_string();
+            // normalise: numbers out, so that one defect is one key
+            let mut site = String::new();
+            for c in msg.split(|c: char| c == ':' || c == '(').next().unwrap_or("").trim().chars() {
+                if c.is_ascii_digit() { if !site.ends_with('N') { site.push('N'); } } else { site.push(c); }
+            }
+            let site: String = site.chars().take(48).collect();
+            let cur = sim.cur.clone();
+            sim.v.push(Violation::new("panic", format!("{}|{site}", if fault { "fault" } else { "plain" }), format!("panic during {cur} ({opk}): {msg}")));
+        }
+    }
+
+    // tear down: drop the channels (closes a0/b0), close relay descriptors
+    let mut probes = std::mem::take(&mut sim.probes);
+    let nontrivial = if fault { !sim.sides[1].model.errors.is_empty() || sim.sides[1].delivered > 0 } else { sim.sides[0].delivered + sim.sides[1].delivered > 0 };
+    for s in 0..2 {
+        sim.sides[s].end = None;
+        if sim.sides[s].relay_open { sys::close(sim.sides[s].relay_fd); sim.sides[s].relay_open = false; }
+    }
+    sim.h.mix(world.trace.0);
+    World::uninstall();
+    probes.insert("sozu_partial_writes".into(), world.stats.sozu_partial_writes);
+    probes.insert("sozu_write_eagain".into(), world.stats.sozu_write_eagain);
+    probes.insert("sozu_reads_filling_buffer".into(), world.stats.sozu_read_full);
+    probes.insert("short_writes_injected".into(), world.stats.short_writes_injected);
+    probes.insert("eagain_injected".into(), world.stats.eagain_injected);
+    probes.retain(|_, v| *v > 0);
+    rep.stats = world.stats.clone();
+    rep.violations = std::mem::take(&mut sim.v);
+    rep.trace_hash = sim.h.0;
+    rep.nontrivial = nontrivial;
+    rep.probes = probes;
+    rep.harness_error = sim.herr.take();
+    (rep, sim.log.take().unwrap_or_default())
+}
+
+/// End of run: run to quiescence under the owners' loops and judge delivery / liveness.
+fn verdict(sim: &mut Sim) {
+    let strict = sim.p.strict;
+    let max = sim.p.max;
+    let mut stalled: [Option<Lag>; 2] = [None, None];
+    let mut eof_pending = false;
+    if strict {
+        sim.drain(true, 4000);
+        for r in 0..2 { stalled[r] = sim.lag(r); }
+        eof_pending = sim.eof_done && sim.sides[1].end.is_some();
+    }
+    sim.drain(false, 4000);
+    sim.cur = "verdict".into();
+    for r in 0..2 {
+        if sim.sides[r].end.is_none() { continue; }
+        let w = 1 - r;
+        let owner = sim.owner_name(r);
+        let wowner = sim.owner_name(w);
+        let errs = sim.sides[r].last_err.clone();
+        let o = sim.sides[r].end.as_ref().map(|e| e.obs()).unwrap_or_default();
+        let now = sim.lag(r);
+        let probe_of = |sim: &mut Sim| match sim.sides[r].end.as_mut().unwrap().read() { Ok(_) => "Ok".to_string(), Err(e) => e };
+        let cause_of = |probe: &str, after: &str, head_len: Option<u64>, head_ok: bool| -> String {
+            match probe {
+                // the channel rejects a frame that the reference model delivers
+                "InvalidProtobufMessage" | "MessageTooLarge" | "MessageLengthUnderDelimiter" if head_ok => format!("well_formed_frame_rejected/{probe}"),
+                "InvalidProtobufMessage" => "undecodable".to_string(),
+                "MessageTooLarge" => "len_gt_max".to_string(),
+                "BufferFull" if head_len.map_or(false, |l| l >= 8 && l <= max) => "false_buffer_full".to_string(),
+                // the channel would hand the frame out (or is merely waiting): the owner never asks
+                "Ok" | "NothingRead" => format!("owner_never_reads/after_{}", if errs == "none" { after } else { errs.as_str() }),
+                other => format!("{after}/{other}"),
+            }
+        };
+        // ---- a declared length above max: nothing behind it can be framed; the only correct end is a close
+        if let (Some(fpos), true) = (sim.sides[r].model.fatal, now.is_none()) {
+            let pushed = sim.sides[r].stream_in.len();
+            let valid_behind = sim.seg_ranges.iter().filter(|(a, b, n)| *n == "valid" && *a > fpos && *b <= pushed).count();
+            if valid_behind > 0 {
+                let probe = probe_of(sim);
+                let hl = sim.head_len(r);
+                let cause = cause_of(&probe, "len_gt_max", hl, false);
+                sim.viol("wedge", format!("{cause}|{owner}"), format!("a frame declaring a length above max_buffer_size ({max}) was followed by {valid_behind} well-formed frame(s); after quiescence plus extra readable/writable events the owner '{owner}' neither delivered them nor closed the channel; read_message keeps returning {probe} (channel state {o:?})"));
+            }
+        }
+        match (now, stalled[r].clone()) {
+            (Some(l), _) if l.writer_stuck => {
+                let ow = sim.sides[w].end.as_ref().map(|e| e.obs()).unwrap_or_default();
+                let werr = sim.sides[w].last_err.clone();
+                sim.viol("wedge", format!("writer_stuck|{wowner}"), format!("side {w} ('{wowner}'): accepted frames never reached the wire although the peer had consumed everything flushed so far, even after extra writable events ({} accepted bytes, {} flushed; last error: {werr}; channel state {ow:?})", sim.sides[w].accepted_bytes, sim.flushed(w)));
+            }
+            (Some(l), _) => {
+                // what does the channel itself say now?
+                let probe = probe_of(sim);
+                let cause = cause_of(&probe, l.after, l.head_len, l.head_ok);
+                sim.viol("wedge", format!("{cause}|{owner}"), format!("side {r} ('{owner}'): {} well-formed frame(s) sent to it were never delivered and the owner did not close the channel, even after extra readable/writable events. First missing: message #{} ({} bytes, max {max}); malformed frame kind before it: '{}'; declared length at the head of front_buf: {:?}; read_message now returns {probe}; last error seen by the owner: {errs}; {} bytes left unread in the kernel; channel state {o:?}", l.owed, l.first, l.next_len, l.after, l.head_len, l.in_kernel));
+            }
+            (None, Some(l)) if l.writer_stuck => {
+                sim.viol("stall_until_next_event", format!("writer|{wowner}"), format!("side {w} ('{wowner}'): accepted frames stayed in the back buffer although the socket had room; they left only after writable events that an edge-triggered poller does not generate"));
+            }
+            (None, Some(l)) => {
+                let key = if l.in_kernel > 0 { format!("left_in_kernel|{owner}") } else { format!("left_in_front_buf|{}|{owner}", l.after) };
+                sim.viol("stall_until_next_event", key, format!("side {r} ('{owner}'): {} well-formed frame(s) were completely available ({} bytes still unread in the kernel, the rest in front_buf) but the owner went back to waiting without delivering them (first missing: message #{}, malformed frame kind before it: '{}'); they came out only after readiness events that an edge-triggered poller does not generate without new traffic", l.owed, l.in_kernel, l.first, l.after));
+            }
+            (None, None) => {}
+        }
+    }
+    // ---- EOF must surface
+    if sim.eof_done {
+        let owner = sim.owner_name(1);
+        if sim.sides[1].end.is_some() {
+            sim.viol("eof_not_surfaced", owner.clone(), format!("the peer closed the socket but the owner '{owner}' never reached a terminal state, even with repeated hang-up events"));
+        } else if eof_pending {
+            sim.viol("eof_missed_until_next_event", owner.clone(), format!("the peer closed the socket; the owner '{owner}' consumed the hang-up event without closing the session and would only close on a further event, which an edge-triggered poller does not generate"));
+        }
+    }
+}
+
+// ------------------------------------------------------------------------------------ generation
+
+fn pick_sizes(rng: &mut Prng) -> ([u64; 2], u64) {
+    let buf = *rng.pick(&[16u64, 24, 32, 48, 64, 64, 100, 128, 256, 512, 1000, 1024, 2048, 4096]);
+    let max = match rng.below(7) {
+        0 => buf,
+        1 => buf * 2,
+        2 => buf * 2 + rng.below(buf),
+        3 => buf * 4,
+        4 => (*rng.pick(&[256u64, 1000, 4096, 16384, 65536])).max(buf),
+        5 => buf + rng.below(buf),
+        _ => buf * *rng.pick(&[3u64, 8, 16]),
+    }
+    .min(65536)
+    .max(buf)
+    .max(24);
+    let buf1 = if rng.chance(1, 3) { (*rng.pick(&[16u64, 32, 64, 128, 1024, 4096])).min(max) } else { buf };
+    ([buf, buf1], max)
+}
+
+fn pick_len(rng: &mut Prng, buf: u64, max: u64) -> usize {
+    let l = match rng.below(13) {
+        0..=3 => rng.range(8, 40),
+        4 => buf.saturating_sub(9) + rng.below(19),
+        5 => (2 * buf).saturating_sub(9) + rng.below(19),
+        6 => max - 8,
+        7 => max,
+        8 => max + 1,
+        9 => if rng.chance(1, 2) { max - rng.below(8.min(max - 8)) } else { max + rng.below(16) },
+        10 => rng.range(8, max),
+        11 => (max / 2).saturating_sub(4) + rng.below(16),
+        _ => rng.range(8, buf.max(9)),
+    };
+    l.clamp(8, max + 64) as usize
+}
+
+fn quantum(rng: &mut Prng, style: u64, buf: u64, hint: u64) -> usize {
+    let style = if style == 5 { rng.below(5) } else { style };
+    (match style {
+        0 => 1,
+        1 => rng.range(1, 16),
+        2 => buf.saturating_sub(8) + rng.below(17),
+        3 => rng.range(1, hint.max(2)),
+        _ => 0,
+    }) as usize
+}
+
+fn gen_plain(seed: u64, rng: &mut Prng, tier: Tier, stall: bool) -> Plan {
+    let pair = if rng.chance(1, 2) { ["worker_session", "worker_loop"] } else { ["sessions", "simple"] };
+    let (buf, max) = pick_sizes(rng);
+    let strict = rng.chance(1, 2);
+    let sndbuf = if stall { 4608 } else { *rng.pick(&[0i32, 0, 4608, 4608, 9216, 32768]) };
+    let buggify = rng.chance(1, 2);
+    let short_pm = if buggify { *rng.pick(&[0u32, 100, 300, 600]) } else { 0 };
+    let eagain_pm = if buggify { *rng.pick(&[0u32, 50, 150, 300]) } else { 0 };
+    let n_ops = match tier { Tier::Quick => rng.range(6, 48), Tier::Thorough => rng.range(6, 90) } as usize;
+    let qstyle = rng.below(6);
+    let size_style = rng.below(3); // 0 many small + one huge, 1 mixed, 2 large
+    let w_write = *rng.pick(&[2u64, 4, 8]);
+    let w_flush = *rng.pick(&[1u64, 3, 6]);
+    let w_relay = *rng.pick(&[2u64, 4, 8]);
+    let w_read = if stall { 0 } else { *rng.pick(&[1u64, 3, 6]) };
+    let dir_bias = rng.below(3); // 0 both, 1 only side 0 writes, 2 only side 1 writes
+    let huge_at = rng.below(n_ops as u64) as usize;
+    let mut ops = Vec::new();
+    let total_w = w_write + w_flush + w_relay + w_read;
+    for i in 0..n_ops {
+        let side = match dir_bias { 1 => 0, 2 => 1, _ => rng.below(2) } as u8;
+        let side = if stall { 0 } else { side };
+        let x = rng.below(total_w);
+        if x < w_write || (size_style == 0 && i == huge_at) {
+            let len = match size_style {
+                0 => if i == huge_at { *rng.pick(&[max - 8, max, max + 1, max - 1, max / 2 + 1]) as usize } else { rng.range(8, 40) as usize },
+                2 => rng.range(max / 3, max) as usize,
+                _ => pick_len(rng, buf[side as usize], max),
+            };
+            ops.push(Op::W { s: side, len: len.max(8) });
+        } else if x < w_write + w_flush {
+            let s = rng.below(2) as u8;
+            let s = if stall { 0 } else { s };
+            ops.push(if strict { Op::Own { s } } else if rng.chance(1, 2) { Op::Wr { s } } else { Op::Run { s } });
+        } else if x < w_write + w_flush + w_relay {
+            let d = rng.below(2) as u8;
+            if stall && d == 0 && rng.chance(3, 4) { continue; }
+            let k = quantum(rng, qstyle, buf[1 - d as usize], max);
+            if rng.chance(1, 2) { ops.push(Op::Pull { d, k: if rng.chance(2, 3) { 0 } else { k } }); }
+            ops.push(Op::Push { d, k });
+        } else {
+            let s = rng.below(2) as u8;
+            if strict { ops.push(Op::Own { s }); } else {
+                match rng.below(6) {
+                    0 => ops.push(Op::Ev { s, bits: rng.range(1, 3) as u16 }),
+                    1 => { ops.push(Op::Ev { s, bits: 1 }); ops.push(Op::Rd { s }); }
+                    2 => ops.push(Op::Rm { s, n: rng.range(1, 4) as u32 }),
+                    3 => { ops.push(Op::Ev { s, bits: 1 }); ops.push(Op::Rd { s }); ops.push(Op::Rm { s, n: 50 }); }
+                    4 => ops.push(Op::Run { s }),
+                    _ => ops.push(Op::Own { s }),
+                }
+            }
+        }
+    }
+    Plan {
+        seed,
+        family: format!("{}_{}", if stall { "stall" } else { "plain" }, if strict { "owner" } else { "rawapi" }),
+        ends: [pair[0].to_string(), pair[1].to_string()],
+        buf, max, sndbuf, short_pm, eagain_pm, strict, ops, segs: Vec::new(),
+    }
+}
+
+fn gen_bad(rng: &mut Prng, buf: u64, max: u64) -> Seg {
+    match rng.below(12) {
+        0 | 1 => Seg::LenLt8 { v: rng.below(8) },
+        2 | 3 | 4 => { let r = rng.below(100); Seg::LenGtMax { v: *rng.pick(&[max + 1, max + 1 + r, 2 * max, u64::MAX, 1 << 63, 1 << 32, u32::MAX as u64]), pay: rng.below(40) as usize } }
+        5 | 6 | 7 => { let r = rng.below(buf); Seg::Undecodable { len: (*rng.pick(&[9u64, 12, 20, 8 + r, max, max - 1])).clamp(9, max) as usize, how: rng.below(4) as u8 } }
+        8 => { let len = pick_len(rng, buf, max).min(max as usize); Seg::Flip { len, bit: rng.below(len as u64 * 8) as usize } }
+        9 => { let len = pick_len(rng, buf, max).min(max as usize).max(10); Seg::Trunc { len, cut: rng.range(1, (len - 8) as u64) as usize } }
+        _ => Seg::Garbage { n: rng.range(1, 40) as usize, g: rng.next_u64() },
+    }
+}
+
+fn gen_fault(seed: u64, rng: &mut Prng, _tier: Tier) -> Plan {
+    let reader = *rng.pick(&["worker_loop", "worker_session", "sessions", "simple"]);
+    let (buf, max) = pick_sizes(rng);
+    let strict = rng.chance(2, 3);
+    let mut segs = Vec::new();
+    let vlen = |rng: &mut Prng| pick_len(rng, buf[1], max).min(max as usize);
+    for _ in 0..rng.below(3) { segs.push(Seg::Valid { len: vlen(rng) }); }
+    let clean = rng.chance(1, 10);
+    if !clean { segs.push(gen_bad(rng, buf[1], max)); }
+    for _ in 0..rng.range(1, 3) { segs.push(Seg::Valid { len: if rng.chance(1, 2) { rng.range(8, 40) as usize } else { vlen(rng) } }); }
+    if !clean && rng.chance(1, 4) {
+        segs.push(gen_bad(rng, buf[1], max));
+        segs.push(Seg::Valid { len: rng.range(8, 40) as usize });
+    }
+    let qstyle = rng.below(6);
+    let mut ops = Vec::new();
+    let n_ops = rng.range(4, 60) as usize;
+    for _ in 0..n_ops {
+        match rng.below(10) {
+            0..=4 => {
+                ops.push(Op::Push { d: 0, k: quantum(rng, qstyle, buf[1], max) });
+                if rng.chance(3, 4) {
+                    if strict { ops.push(Op::Own { s: 1 }); } else {
+                        ops.push(Op::Ev { s: 1, bits: 1 });
+                        ops.push(Op::Rd { s: 1 });
+                        ops.push(Op::Rm { s: 1, n: rng.range(1, 6) as u32 });
+                    }
+                }
+            }
+            5 => ops.push(Op::Own { s: 1 }),
+            6 => ops.push(Op::W { s: 1, len: pick_len(rng, buf[1], max) }),
+            7 => ops.push(if strict { Op::Own { s: 1 } } else { Op::Wr { s: 1 } }),
+            8 => ops.push(Op::Pull { d: 1, k: 0 }),
+            _ => if strict { ops.push(Op::Own { s: 1 }) } else { ops.push(Op::Rm { s: 1, n: 3 }) },
+        }
+    }
+    if rng.chance(1, 5) {
+        let at = rng.below(ops.len() as u64 + 1) as usize;
+        ops.insert(at, Op::Eof);
+    }
+    Plan {
+        seed,
+        family: format!("fault_{reader}_{}", if strict { "owner" } else { "rawapi" }),
+        ends: ["raw".to_string(), reader.to_string()],
+        buf, max, sndbuf: 0, short_pm: 0, eagain_pm: 0, strict, ops, segs,
+    }
+}
+
+pub fn generate(seed: u64, tier: Tier) -> Plan {
+    let mut rng = Prng::derive(seed, "c11/plan");
+    let f = rng.below(100);
+    if f < 50 { gen_plain(seed, &mut rng, tier, false) } else if f < 60 { gen_plain(seed, &mut rng, tier, true) } else { gen_fault(seed, &mut rng, tier) }
+}
+
+fn short_op(o: &Op) -> String {
+    match o {
+        Op::W { s, len } => format!("W{s}:{len}"),
+        Op::Ev { s, bits } => format!("Ev{s}:{bits}"),
+        Op::Rd { s } => format!("Rd{s}"),
+        Op::Wr { s } => format!("Wr{s}"),
+        Op::Run { s } => format!("Run{s}"),
+        Op::Rm { s, n } => format!("Rm{s}x{n}"),
+        Op::Own { s } => format!("Own{s}"),
+        Op::Pull { d, k } => format!("Pull{d}:{k}"),
+        Op::Push { d, k } => format!("Push{d}:{k}"),
+        Op::Eof => "Eof".into(),
+    }
+}
+
+pub fn summarize(p: &Plan) -> String {
+    let mut s = format!("{} {}<->{} buf={:?} max={} sndbuf={} short={}‰ eagain={}‰ strict={} ", p.family, p.ends[0], p.ends[1], p.buf, p.max, p.sndbuf, p.short_pm, p.eagain_pm, p.strict);
+    if !p.segs.is_empty() {
+        s += "stream=[";
+        for g in &p.segs { s += &format!("{} ", serde_json::to_string(g).unwrap_or_default()); }
+        s += "] ";
+    }
+    s += "ops=";
+    for o in p.ops.iter().take(40) { s += &short_op(o); s.push(' '); }
+    if p.ops.len() > 40 { s += &format!("... ({} ops)", p.ops.len()); }
+    s
+}
+
+// ------------------------------------------------------------------------------- fault enumeration
+
+/// payload an endpoint of `kind` would build for its transmit (tx) or receive side
+fn payload_for(kind: &str, tx: bool, seq: u32, n: usize) -> Vec<u8> {
+    match (kind, tx) {
+        ("worker_session", true) | ("worker_loop", false) => build::<WorkerRequest>(seq, n).encode_to_vec(),
+        ("worker_session", false) | ("worker_loop", true) => build::<WorkerResponse>(seq, n).encode_to_vec(),
+        ("sessions", true) | ("simple", false) => build::<Response>(seq, n).encode_to_vec(),
+        _ => build::<Request>(seq, n).encode_to_vec(),
+    }
+}
+
+fn enum_plans(tier: Tier) -> Vec<Plan> {
+    let mut out = Vec::new();
+    let thorough = tier == Tier::Thorough;
+    // (E1) every split position of short well-formed sequences, both channel flavours
+    let cfgs: &[(u64, u64)] = if thorough { &[(16, 64), (24, 48), (32, 32), (16, 40), (64, 64), (20, 100)] } else { &[(16, 64), (32, 32)] };
+    for pair in [["worker_session", "worker_loop"], ["sessions", "simple"]] {
+        for &(buf, max) in cfgs {
+            let m = max as usize;
+            let seqs: Vec<Vec<usize>> = vec![vec![12, 20, 9], vec![m, 10], vec![m / 2 + 1, m / 2 + 1, 8], vec![10, m - 8, 11], vec![m / 2, m / 2 + 2]];
+            for (si, lens) in seqs.iter().enumerate() {
+                if !thorough && si >= 3 { break; }
+                for wside in 0..2u8 {
+                    // real length of the stream: all writes happen before the first flush, so the
+                    // writer accepts a frame iff the running total stays within max
+                    let mut total = 0usize;
+                    for (i, l) in lens.iter().enumerate() {
+                        let fl = payload_for(pair[wside as usize], true, i as u32, l.saturating_sub(8)).len() + 8;
+                        if total + fl <= m { total += fl; }
+                    }
+                    let rside = 1 - wside;
+                    let mk = |cuts: &[usize]| -> Plan {
+                        let mut ops: Vec<Op> = lens.iter().map(|l| Op::W { s: wside, len: *l }).collect();
+                        ops.push(Op::Own { s: wside });
+                        ops.push(Op::Pull { d: wside, k: 0 });
+                        ops.push(Op::Own { s: wside });
+                        ops.push(Op::Pull { d: wside, k: 0 });
+                        let mut at = 0;
+                        for c in cuts { ops.push(Op::Push { d: wside, k: c - at }); ops.push(Op::Own { s: rside }); at = *c; }
+                        ops.push(Op::Push { d: wside, k: 0 });
+                        ops.push(Op::Own { s: rside });
+                        Plan { seed: 0, family: "enum_split".into(), ends: [pair[0].into(), pair[1].into()], buf: [buf, buf], max, sndbuf: 0, short_pm: 0, eagain_pm: 0, strict: true, ops, segs: vec![] }
+                    };
+                    for c in 1..total { out.push(mk(&[c])); }
+                    if thorough && total <= 80 {
+                        for c1 in 1..total { for c2 in (c1 + 1)..total { out.push(mk(&[c1, c2])); } }
+                    }
+                }
+            }
+        }
+    }
+    // (E2) every split position around each malformed-frame kind, every owner; (E3) EOF at every offset
+    let fcfgs: &[(u64, u64)] = if thorough { &[(16, 64), (32, 32), (24, 100)] } else { &[(16, 64)] };
+    for reader in ["worker_loop", "worker_session", "sessions", "simple"] {
+        for &(buf, max) in fcfgs {
+            let bads = vec![
+                Seg::LenLt8 { v: 0 }, Seg::LenLt8 { v: 7 },
+                Seg::LenGtMax { v: max + 1, pay: 5 }, Seg::LenGtMax { v: u64::MAX, pay: 0 },
+                Seg::Undecodable { len: 12, how: 0 }, Seg::Undecodable { len: 20, how: 1 }, Seg::Undecodable { len: max as usize, how: 2 },
+                Seg::Garbage { n: 11, g: 7 }, Seg::Trunc { len: 24, cut: 5 }, Seg::Flip { len: 20, bit: 3 }, Seg::Flip { len: 20, bit: 100 },
+            ];
+            for (bi, bad) in bads.iter().enumerate() {
+                if !thorough && matches!(bi, 1 | 3 | 5 | 10) { continue; }
+                let segs = vec![Seg::Valid { len: 14 }, bad.clone(), Seg::Valid { len: 19 }, Seg::Valid { len: 10 }];
+                let total: usize = segs.iter().enumerate().map(|(i, g)| seg_bytes(g, i as u32, &|seq, n| payload_for(reader, false, seq, n)).len()).sum();
+                for c in 0..total {
+                    let mut ops = Vec::new();
+                    if c > 0 { ops.push(Op::Push { d: 0, k: c }); ops.push(Op::Own { s: 1 }); }
+                    ops.push(Op::Push { d: 0, k: 0 });
+                    ops.push(Op::Own { s: 1 });
+                    out.push(Plan { seed: 0, family: format!("enum_fault_split_{reader}"), ends: ["raw".into(), reader.into()], buf: [buf, buf], max, sndbuf: 0, short_pm: 0, eagain_pm: 0, strict: true, ops, segs: segs.clone() });
+                }
+            }
+            let segs = vec![Seg::Valid { len: 14 }, Seg::Valid { len: (max as usize).min(40) }, Seg::Valid { len: 9 }];
+            let total: usize = segs.iter().enumerate().map(|(i, g)| seg_bytes(g, i as u32, &|seq, n| payload_for(reader, false, seq, n)).len()).sum();
+            for c in 0..=total {
+                for own_before in [false, true] {
+                    let mut ops = Vec::new();
+                    if c > 0 { ops.push(Op::Push { d: 0, k: c }); }
+                    if own_before { ops.push(Op::Own { s: 1 }); }
+                    ops.push(Op::Eof);
+                    ops.push(Op::Own { s: 1 });
+                    out.push(Plan { seed: 0, family: format!("enum_eof_{reader}"), ends: ["raw".into(), reader.into()], buf: [buf, buf], max, sndbuf: 0, short_pm: 0, eagain_pm: 0, strict: true, ops, segs: segs.clone() });
+                }
+            }
+        }
+    }
+    out
+}
+
+// ------------------------------------------------------------------------------------- property
+
+fn parse(plan: &Value) -> Result<Plan, String> { serde_json::from_value(plan.clone()).map_err(|e| format!("bad plan: {e}")) }
+
 impl Property for C11 {
     fn id(&self) -> &'static str { "C11" }
-    fn runs(&self, _tier: Tier) -> u64 { 0 }
-    fn gen_plan(&self, _seed: u64, _tier: Tier) -> Value { Value::Null }
-    fn run_plan(&self, _plan: &Value) -> RunReport { RunReport { harness_error: Some("not implemented".into()), ..Default::default() } }
-    fn descr(&self) -> Descr { Descr { level: "exploration", rule: "", assumptions: vec![], real: vec![], stub: vec![], not_covered: vec![] } }
+    fn runs(&self, tier: Tier) -> u64 { match tier { Tier::Quick => 150_000, Tier::Thorough => 4_000_000 } }
+    fn gen_plan(&self, seed: u64, tier: Tier) -> Value { serde_json::to_value(generate(seed, tier)).unwrap() }
+    fn run_plan(&self, plan: &Value) -> RunReport {
+        let p = match parse(plan) { Ok(p) => p, Err(e) => return RunReport { harness_error: Some(e), ..Default::default() } };
+        on_fresh_thread(move || execute(&p, false).0)
+    }
+    fn shrink(&self, plan: &Value) -> Vec<Value> {
+        let Ok(p) = parse(plan) else { return vec![] };
+        shrink_plan(&p).into_iter().map(|p| serde_json::to_value(p).unwrap()).collect()
+    }
+    fn debug_plan(&self, plan: &Value) -> String {
+        let p = match parse(plan) { Ok(p) => p, Err(e) => return e };
+        let (rep, log) = on_fresh_thread(move || execute(&p, true));
+        let mut s = log.join("\n");
+        s += &format!("\nviolations: {:#?}\nprobes: {:?}\n", rep.violations, rep.probes);
+        s
+    }
+    fn enumerated(&self, tier: Tier) -> Vec<Value> { enum_plans(tier).into_iter().map(|p| serde_json::to_value(p).unwrap()).collect() }
+    fn descr(&self) -> Descr {
+        Descr {
+            level: "exploration + enumeration",
+            rule: "seeded plans: endpoint pair (real WorkerSession <-> worker event-loop transcription, hub session loop with the real extract_messages <-> plain API user, or a raw byte writer -> any of the four), buffer_size 16..4096, max_buffer_size 24..65536, frame sizes biased to 8..40, buffer_size, 2x, max/2, max-8, max, max+1; owner-driven plans (write_message, owner turns under an edge-triggered event model, relay pull/push) and raw-API plans (write_message/writable/run/readable/read_message/handle_events in any order, finished by a plain run()+read loop); relay quantum 1, 1..16, ~buffer_size, uniform or everything; SO_SNDBUF 4608..default; injected short writes and EAGAIN on the channel sockets; stall plans (receiver does not read); fault plans: len<8, len>max (max+1..usize::MAX), undecodable payload, bit flip, truncation, garbage between well-formed frames, EOF at a random point; enumerated plans: every split position (thorough: every pair of positions) of short sequences in both directions, every split position around each malformed kind for every owner, EOF at every offset. A run is non-trivial when >=1 message was delivered end-to-end (plain) or >=1 malformed frame reached the reader's socket or >=1 message was delivered (fault). distinct = distinct hashes over configuration, all operations, their results and the observed buffer states after every step",
+            assumptions: vec!["nonblocking channels only (the mode both event loops use)", "buffer_size <= max_buffer_size on both ends, same max on both ends", "edge-triggered readiness: an owner gets an event only after new bytes arrived, write space appeared, the peer closed, or an injected EAGAIN was re-armed; the event carries the level state from poll(2)", "release semantics (debug assertions off)", "x86-64 Linux (8-byte length prefix)"],
+            real: vec!["sozu_command_lib::channel::Channel (both ends)", "sozu_command_lib::buffer::growable::Buffer", "sozu::command::sessions::{WorkerSession::ready, extract_messages, wants_to_tick}", "prost encode/decode of WorkerRequest/WorkerResponse/Request/Response", "Linux AF_UNIX stream sockets"],
+            stub: vec!["worker event loop around the channel (transcription of lib/src/server.rs:1054-1098,1291-1347,1543-1572 with an empty response queue)", "hub loop around a ClientSession (transcription of bin/src/command/server.rs:508-600 and sessions.rs:164-181 calling the real extract_messages)", "relay between the two socket pairs", "raw byte writer"],
+            not_covered: vec!["blocking mode (read_message_blocking_timeout, write_message_blocking)", "heap size of the Vec behind Buffer (private; only Buffer::capacity() is observable)", "ClientSession::ready keeping only the last of several pipelined requests (owner policy, not channel)", "Server::send_queue with a queued response larger than max_buffer_size (push_front retry loop) - read, not simulated", "the real worker event loop end-to-end (see netsim properties)"],
+        }
+    }
+}
+
+pub fn shrink_plan(p: &Plan) -> Vec<Plan> {
+    let mut out = Vec::new();
+    let n = p.ops.len();
+    // drop chunks of operations, largest first
+    let mut chunk = n / 2;
+    while chunk >= 1 {
+        let mut i = 0;
+        while i + chunk <= n {
+            let mut q = p.clone();
+            q.ops.drain(i..i + chunk);
+            out.push(q);
+            i += chunk;
+        }
+        if chunk == 1 { break; }
+        chunk /= 2;
+    }
+    for i in 0..p.segs.len() { let mut q = p.clone(); q.segs.remove(i); out.push(q); }
+    if p.short_pm != 0 || p.eagain_pm != 0 { let mut q = p.clone(); q.short_pm = 0; q.eagain_pm = 0; out.push(q); }
+    if p.sndbuf != 0 { let mut q = p.clone(); q.sndbuf = 0; out.push(q); }
+    if p.buf[0] != p.buf[1] { let mut q = p.clone(); q.buf[1] = q.buf[0]; out.push(q); let mut q = p.clone(); q.buf[0] = q.buf[1]; out.push(q); }
+    for (i, o) in p.ops.iter().enumerate() {
+        match o {
+            Op::W { s, len } if *len > 8 => {
+                for nl in [8usize, len / 2, len - 1] { if nl >= 8 && nl < *len { let mut q = p.clone(); q.ops[i] = Op::W { s: *s, len: nl }; out.push(q); } }
+            }
+            Op::Pull { d, k } if *k != 0 => { let mut q = p.clone(); q.ops[i] = Op::Pull { d: *d, k: 0 }; out.push(q); }
+            Op::Push { d, k } if *k != 0 => { let mut q = p.clone(); q.ops[i] = Op::Push { d: *d, k: 0 }; out.push(q); }
+            Op::Rm { s, n } if *n > 1 => { let mut q = p.clone(); q.ops[i] = Op::Rm { s: *s, n: 1 }; out.push(q); }
+            _ => {}
+        }
+    }
+    // halve every size at once (buffers, cap, message and relay sizes)
+    if p.max >= 48 {
+        let mut q = p.clone();
+        q.max = (p.max / 2).max(24);
+        q.buf = [p.buf[0].min(q.max).max(16) / 2 * 2, p.buf[1].min(q.max).max(16) / 2 * 2];
+        q.buf = [(p.buf[0] / 2).clamp(16, q.max), (p.buf[1] / 2).clamp(16, q.max)];
+        for o in q.ops.iter_mut() {
+            match o {
+                Op::W { len, .. } => *len = (*len / 2).max(8),
+                Op::Pull { k, .. } | Op::Push { k, .. } => *k = if *k > 1 { *k / 2 } else { *k },
+                _ => {}
+            }
+        }
+        for g in q.segs.iter_mut() {
+            match g {
+                Seg::Valid { len } | Seg::Undecodable { len, .. } => *len = (*len / 2).max(9),
+                Seg::LenGtMax { v, .. } if *v > p.max && *v <= 4 * p.max => *v = (*v / 2).max(q.max + 1),
+                _ => {}
+            }
+        }
+        out.push(q);
+    }
+    for (i, g) in p.segs.iter().enumerate() {
+        if let Seg::Valid { len } = g { if *len > 8 { let mut q = p.clone(); q.segs[i] = Seg::Valid { len: 8.max(len / 2) }; out.push(q); } }
+        if let Seg::LenGtMax { v, pay } = g { if *pay > 0 { let mut q = p.clone(); q.segs[i] = Seg::LenGtMax { v: *v, pay: 0 }; out.push(q); } }
+    }
+    out
 }
